@@ -328,6 +328,8 @@ def _ob_worker(task):
     eng, obs = _G["eng"], _G["obs"]
     ob = obs[idx]
     t0 = time.time()
+    if ob.kind != "cover" and z3.is_true(ob.goal):
+        return idx, dict(status="unsat", backend="syntactic (goal evaluates to True)", time=0.0, model=None, reason="trivial", log=[], prep=0.0)
     level = max(level, int((ob.meta or {}).get("level", 0)))
     try:
         full, core = vcprep.prepare(eng, ob, level=level)
